@@ -251,6 +251,23 @@ class Ctx:
             cov.update(extra_cov)
         nts = sorted(self.nt)
         cov["nontrivial_examples"] = nts[:12]
+        # clause coverage (vacuity guard): every formula clause with an antecedent announces itself with NT(<<"Cxx", "<clause>", ...>>)
+        # when the antecedent held; clauses of this property that never did on this run are LISTED
+        defined = set()
+        for mod in ("Props.tla", "Conf.tla", "Trace.tla"):
+            for m in re.finditer(r'NT\(<<"(C\d+)"(?:, "([^"]+)")?', open(os.path.join(SPEC, mod)).read()):
+                defined.add((m.group(1), m.group(2) or "*"))
+        seen = set()
+        for t in nts:
+            m = re.match(r'<<"NT", "(C\d+)"(?:, "([^"]+)")?', t)
+            if m:
+                k = (m.group(1), m.group(2) or "*")
+                seen.add(k if k in defined else (m.group(1), "*"))
+        mine = sorted(k for k in defined if k[0] == self.pid)
+        cov["clauses"] = {"defined": ["%s/%s" % k for k in mine],
+                          "exercised": ["%s/%s" % k for k in mine if k in seen],
+                          "never_exercised_in_this_run": ["%s/%s" % k for k in mine if k not in seen],
+                          "exercised_of_other_properties": sorted("%s/%s" % k for k in seen if k[0] != self.pid)}
         cov["known_findings_seen"] = sorted("%s/%s" % x for x in self.known_printed)
         ev = {"property_id": self.pid, "tier": self.tier, "seed": self.seed, "level": level, "coverage": cov,
               "assumptions": self.assumptions, "wall_s": round(time.time() - self.t0, 1), "violations": self.violations}
